@@ -60,3 +60,14 @@ func VerifCacheRelease(c *Cache) {
 	c.timingWheel.slots = nil
 	c.timingWheel.timers = NewSafeMap()
 }
+
+// VerifSafeMapState returns m's deletion counters and generation sizes.  Used only to
+// classify generated histories (class histograms of the SafeMap units), never as an oracle.
+func VerifSafeMapState(m *SafeMap) (deletionOld, deletionNew, lenOld, lenNew int) {
+	m.lock.RLock()
+	defer m.lock.RUnlock()
+	return m.deletionOld, m.deletionNew, len(m.dirtyOld), len(m.dirtyNew)
+}
+
+// VerifSafeMapThresholds returns maxDeletion and copyThreshold.
+func VerifSafeMapThresholds() (int, int) { return maxDeletion, copyThreshold }
